@@ -101,6 +101,15 @@ def enclosing_conditions(root, target):
     return path if rec(root) else None
 
 
+def _is_epoch_gt_threshold(c, cn, epoch_h, th_h):
+    """canonical integer comparison: the condition is equivalent to epoch > threshold"""
+    N = e1.Norm(c, {epoch_h: Rat.atom("epoch"), th_h: Rat.atom("threshold")})
+    try:
+        return str(N.norm(cn)) == e1.cmp_atom("Gt", Rat.atom("epoch"), Rat.atom("threshold"), integer=True)
+    except ValueError:
+        return False
+
+
 def r2_r3(ctx, L, hs):
     c = ctx.crate
     fn = L.fn
@@ -127,13 +136,15 @@ def r2_r3(ctx, L, hs):
     have = {"some-threshold": False, "epoch-gt-threshold": False, "increasing": False}
     th_inner = None
     inc_h = None
+    gt_if = None
     for (ifn, br) in conds or []:
         cn = strip(ifn["c"])
         if cn.get("k") == "letx" and e4.local_hid(cn["init"]) == th_outer and br == "th" and e4.arm_variant({"pat": cn["pat"]})[0].endswith("Some"):
             have["some-threshold"] = True
             th_inner = pat_binds(cn["pat"])[0][1]
-        elif cn.get("k") == "bin" and cn["op"] == "Gt" and e4.local_hid(cn["l"]) == L.epoch_var and th_inner is not None and e4.local_hid(cn["r"]) == th_inner and br == "th":
+        elif cn.get("k") == "bin" and cn["op"] in ("Gt", "Ge", "Lt", "Le") and th_inner is not None and br == "th" and _is_epoch_gt_threshold(c, cn, L.epoch_var, th_inner):
             have["epoch-gt-threshold"] = True
+            gt_if = ifn
         elif cn.get("k") == "local" and cn["name"] == "increasing" and br == "th":
             have["increasing"] = True
             inc_h = cn["hid"]
@@ -166,11 +177,9 @@ def r2_r3(ctx, L, hs):
     if inc_h is None or th_inner is None:
         return
     # R13.3 window
-    blk = None
-    for (ifn, br) in conds:
-        cn = strip(ifn["c"])
-        if cn.get("k") == "bin" and cn["op"] == "Gt":
-            blk = ifn["th"]
+    blk = gt_if["th"] if gt_if is not None else None
+    if blk is None:
+        return
     st = top_stmts_of(blk)
     lets = {s["pat"]["name"]: s for s in st if s.get("k") == "let" and s["pat"].get("k") == "bind"}
     hist = lets.get("history")
